@@ -34,11 +34,11 @@ CHECKS = {
    "only the fragments 'multiple bindings' and the type string are relied on in diagnostics",
    "runtime monitoring: black-box oracle over an enumerated input matrix with control twins"),
  "C06": ("exploration", "6 C06",
-   "Each needed source of generated accepted programs is removed in turn (leaf, interior, argument, behind a binding, parent of a field selection, other package) plus a near-miss matrix (T vs *T, implementation vs interface, named vs underlying, alias); oracle: no output and a 'no provider found' / binding-without-provider diagnostic naming a missing type; unmutated twins must be accepted.",
+   "Each needed source of generated accepted programs is removed in turn (leaf, interior, argument, behind a binding, parent of a field selection, other package) pairs of sources are removed too, plus a near-miss matrix (T vs *T, implementation vs interface, named vs underlying, alias) and an exhaustive family of small graphs with two unprovided types under every parameter order; oracle: no output and a 'no provider found' / binding-without-provider diagnostic naming EVERY type the model finds missing at the stage wire stops at; unmutated twins must be accepted.",
    "the reference model decides which types become missing",
    "runtime monitoring: mutation of accepted inputs with a reference-model oracle"),
  "C07": ("exploration", "6 C07",
-   "Exhaustive over all labelled digraphs (self-loops included) on <=3 nodes (quick) / <=4 nodes (thorough), random mixed-edge-kind graphs, lassos, disjoint components; cyclic <=> rejected with a cycle diagnostic by both gen and check. Termination and path-independence are decided on loop-iteration counts from hooks in solve() and verifyAcyclic(): a hard step cap (process exits 96) and a linear budget on lattices with 2^d paths, long chains and wide fan-out.",
+   "Exhaustive over all labelled digraphs (self-loops included) on <=3 nodes (quick) / <=4 nodes (thorough), random mixed-edge-kind graphs, lassos, disjoint components; cyclic <=> rejected with a cycle diagnostic by both gen and check. Termination and path-independence are decided on loop-iteration counts from hooks in solve() and verifyAcyclic(): a hard step cap (process exits 96) and a linear budget on lattices with 2^d paths built from function parameters, struct-provider fields, interface bindings and field providers, long chains and wide fan-out.",
    "'terminates on every input' is claimed only as bounded progress on the explored inputs; needs the verif build tag for the step counts (black-box verdicts remain without it)",
    "runtime monitoring: exhaustive small-graph enumeration + hooked step counters"),
  "C08": ("exploration", "6 C08",
@@ -63,7 +63,7 @@ CHECKS = {
    "variants are produced by re-running the generator with the same node stream and a different layout stream, so they are the same program by construction",
    "runtime monitoring: metamorphic variants compared on normalised execution traces"),
  "C13": ("exploration", "6 C13",
-   "Typed grammar enumeration of value expressions (atoms of every operand kind, wrapped by unary/binary/conversion/composite/index/slice/selector/deref/address-of/type-assertion productions to depth 2-3) placed in the injector's package and in another package's set; must-reject classes (any call incl. named function types, function-typed fields, function literals, converted functions; channel receive; interface-typed wire.Value; non-implementing InterfaceValue; unexported or non-package-scope identifiers) must be refused; all others accepted and, executed, reflect.DeepEqual to the same expression evaluated in its home package, same address for &var forms, same pointer across calls and across injectors sharing the set.",
+   "Typed grammar enumeration of value expressions (atoms of every operand kind, wrapped by unary/binary/conversion/composite/index/slice/selector/deref/address-of/type-assertion productions to depth 2-3) placed in the injector's package and in another package's set; must-reject classes (any call incl. named function types, function-typed fields, function literals, converted functions; channel receive; interface-typed wire.Value; non-implementing InterfaceValue; unexported or non-package-scope identifiers) must be refused; all others accepted and, executed, reflect.DeepEqual to the same expression evaluated in its home package, same address for &var forms, same pointer across calls and across injectors sharing the set; a twin-package family (two packages declaring the same names with different values, the same expression text written in each) must deliver each package's own value, and the same pointer-valued expression written twice must yield two instances.",
    "function values, method values, function literals and builtin calls are a no-claim zone (crash-monitored only)",
    "runtime monitoring: reference evaluation in the home package compared at run time"),
  "C14": ("exploration", "6 C14",
@@ -83,11 +83,11 @@ CHECKS = {
    "packages that fail to load (type errors) are outside the scenario space; write faults are injected by a directory squatting on the output path rather than strace (per-thread counters are not reproducible under the Go scheduler)",
    "runtime monitoring: file-tree snapshots and exit codes against a sequential model, with a deterministic write fault"),
  "C18": ("exploration", "6 C18",
-   "Seeded histories over {switch sources to one of four variants, gen, diff, check, delete output, damage output (stale / non-compiling / truncated after the package clause / garbage after the package clause)} are replayed step by step against a sequential model (state = current variant + file bytes): after every successful gen the file equals the fresh-checkout output, a second gen changes nothing, diff right after exits 0, a failed gen leaves the file untouched, diff/check never touch the tree.",
+   "Seeded histories over {switch sources to one of four variants, gen, diff, check, delete output, damage output (stale / non-compiling / truncated after the package clause / garbage after the package clause / up-to-date content plus a tail / output of a variant that extends the current one)} over five source variants (two rejected; one accepted variant's output is a byte prefix of another's) are replayed step by step against a sequential model (state = current variant + file bytes): after every successful gen the file equals the fresh-checkout output, a second gen changes nothing, diff right after exits 0, a failed gen leaves the file untouched, diff/check never touch the tree.",
    "damage classes are restricted to those the go tool tolerates independent of file age (a file without package clause is refused by cmd/go's package index once older than 2 s)",
    "runtime monitoring: sequential history replay against a reference model"),
  "C19": ("exploration", "6 C19",
-   "Accepted programs and rejected programs of every class (conflict, missing, cycle, unused, signature, duplicate parameter, binding, injector lacking error/cleanup at depth 1-3, inaccessible value, malformed unreferenced set variable) run through gen and check on the same tree: check must report exactly when gen fails or a set variable is malformed, with the same error classes. show: parsed stdout must equal the model for every top-level set (transitively included named sets, each provided type in exactly one group headed by exactly the types needed from outside, injector list).",
+   "Accepted programs and rejected programs of every class (conflict, missing, cycle, unused, signature, duplicate parameter, binding, injector lacking error/cleanup at depth 1-3, inaccessible value, malformed unreferenced set variable) run through gen and check on the same tree: check must report exactly when gen fails or a set variable is malformed, with the same error classes. show: parsed stdout must equal the model for every top-level set, alias set variables (var A = B) and aliases of aliases included (transitively included named sets, each provided type in exactly one group headed by exactly the types needed from outside, injector list).",
    "error classes are recognised by the message fragments the properties themselves name",
    "runtime monitoring: differential gen/check observation + parsed show output against the reference model"),
  "C20": ("exploration", "6 C20",
